@@ -1,3 +1,4 @@
+import Sparrow.Proofs.ExchangeGlueEquiv
 import Sparrow.Proofs.ShapeLemmas
 import Sparrow.Proofs.LifeLemmas
 import Sparrow.Generated.Lifecycle
@@ -114,3 +115,26 @@ theorem stale_factors_rejected :
   Sparrow.Shape.stale_factors_rejected 
 
 end Sparrow.Props.C15.Shape
+
+namespace Sparrow.Props.C15.ExchangeGlue
+open Sparrow Sparrow.Generated.ExchangeGlue Sparrow.Generated.Kernels
+
+/-- a stored histogram is kept, with the parameters that describe it, when `recalculate` is off -/
+theorem calculateEnergyExchange_kept (P D B nVis : Nat) (pc : Nat → Nat → ℝ) (d0 : Nat → ℝ) (e0 : Nat → Nat → Nat → ℝ)
+    (fft : Nat → Nat → Nat → Nat → ℝ) (p2o : Nat → Nat → Nat) (vp : Nat → Nat → Nat)
+    (E : Nat → Nat → Nat → Nat → ℝ) (dt0 c0 dur0 : Option ℝ) (c dt dur : ℝ) (K : Int)
+    (s0 s1 s2 s3 s4 s5 s6 s7 : Nat) (junk : Nat → Nat → ℝ) :
+    calculateEnergyExchange P 3 pc s0 d0 P D B e0 s1 s2 s3 s4 fft s5 s6 p2o nVis s7 vp P (some E) dt0 c0 dur0 c dt dur K false junk =
+      (some E, dt0, c0, dur0) :=
+  Sparrow.calculateEnergyExchange_kept P D B nVis pc d0 e0 fft p2o vp E dt0 c0 dur0 c dt dur K s0 s1 s2 s3 s4 s5 s6 s7 junk
+
+/-- … and otherwise the stored parameters are exactly the arguments the new histogram was computed with -/
+theorem calculateEnergyExchange_params (P D B nVis : Nat) (pc : Nat → Nat → ℝ) (d0 : Nat → ℝ) (e0 : Nat → Nat → Nat → ℝ)
+    (fft : Nat → Nat → Nat → Nat → ℝ) (p2o : Nat → Nat → Nat) (vp : Nat → Nat → Nat)
+    (etc0 : Option (Nat → Nat → Nat → Nat → ℝ)) (dt0 c0 dur0 : Option ℝ) (c dt dur : ℝ) (K : Int) (recalc : Bool)
+    (s0 s1 s2 s3 s4 s5 s6 s7 : Nat) (junk : Nat → Nat → ℝ) (h : etc0.isNone = true ∨ recalc = true) :
+    let r := calculateEnergyExchange P 3 pc s0 d0 P D B e0 s1 s2 s3 s4 fft s5 s6 p2o nVis s7 vp P etc0 dt0 c0 dur0 c dt dur K recalc junk
+    r.1.isSome = true ∧ r.2.1 = some dt ∧ r.2.2.1 = some c ∧ r.2.2.2 = some dur :=
+  Sparrow.calculateEnergyExchange_params P D B nVis pc d0 e0 fft p2o vp etc0 dt0 c0 dur0 c dt dur K recalc s0 s1 s2 s3 s4 s5 s6 s7 junk h
+
+end Sparrow.Props.C15.ExchangeGlue
